@@ -19,4 +19,33 @@ theorem index_scans_are_refiltered :
     ((startSites.dropWhile (· != "newFilteredFetcher")).contains "newIndexFetcher") = false := by
   decide +kernel
 
+/-! ### a null operand of an ordering comparison: the filter evaluation (`internal/connor`) and the value matchers of
+    the index fetcher (`createValueMatcher`) read from the sources (repaired defect 2395343) -/
+
+/-- what `internal/connor/<f>.go` returns for `condition == nil`, as a function of "the data is nil" -/
+def connorNil (f : String) (dataNil : Bool) : Option Bool :=
+  match (nilSemantics.find? (fun w => w.func == f && w.file == "internal/connor/" ++ f ++ ".go")).map (·.arg) with
+  | some "true" => some true
+  | some "false" => some false
+  | some "data == nil" => some dataNil
+  | some "data != nil" => some (!dataNil)
+  | _ => none
+
+/-- what the matcher `createValueMatcher` builds for a nil operand and operator `op` says about a value -/
+def matcherNil (op : String) (dataNil : Bool) : Option Bool :=
+  if nilSemantics.any (fun w => w.func == "nil:unrecognised") then none
+  else match (nilSemantics.find? (fun w => w.func == "nil:" ++ op)).map (·.arg) with
+    | some "anyMatcher" => some true
+    | some "noneMatcher" => some false
+    | some _ => none
+    | none => some (dataNil == nilSemantics.any (fun w => w.func == "nilMatcher:true" && w.arg == op))
+
+/-- **index value matchers follow the filter semantics for a null operand**: `_gt`, `_ge`, `_lt`, `_le` with null mean
+    to the index fetcher what they mean to the filter evaluation, for values that are nil and values that are not -/
+theorem nil_operand_matchers_follow_the_filter :
+    [("gt", "opGt"), ("ge", "opGe"), ("lt", "opLt"), ("le", "opLe")].all (fun p =>
+      [true, false].all (fun dataNil =>
+        (connorNil p.1 dataNil).isSome && connorNil p.1 dataNil == matcherNil p.2 dataNil)) = true := by
+  decide +kernel
+
 end Defra.Oblig.C07
